@@ -174,6 +174,12 @@ func (l *queue) SetMaxSegmentSize(size int64) error {
 	l.mu.Lock()
 	defer l.mu.Unlock()
 
+	// Blocks accepted on the buffered path must be in the file before the
+	// tail can move on.
+	if err := l.flushTail(); err != nil {
+		return err
+	}
+
 	l.maxSegmentSize = size
 
 	for _, s := range l.segments {
@@ -196,6 +202,12 @@ func (l *queue) PurgeOlderThan(when time.Time) error {
 
 	if len(l.segments) == 0 {
 		return nil
+	}
+
+	// Blocks accepted on the buffered path are new data: write them out
+	// before judging the age of the file they belong to.
+	if err := l.flushTail(); err != nil {
+		return err
 	}
 
 	cutoff := when.Truncate(time.Second)
@@ -276,6 +288,16 @@ func (l *queue) diskUsage() int64 {
 }
 
 // addSegment creates a new empty segment file
+// flushTail writes out what the tail segment holds in its write buffer.
+func (l *queue) flushTail() error {
+	if l.tail == nil {
+		return nil
+	}
+	l.tail.mu.Lock()
+	defer l.tail.mu.Unlock()
+	return l.tail.flush()
+}
+
 func (l *queue) addSegment() (*segment, error) {
 	nextID, err := l.nextSegmentID()
 	if err != nil {
